@@ -78,6 +78,14 @@ def run_case(sh, case, prop, api='func', driver='generated', nontrivial=None, to
             sh.note('raised_in_domain:' + type(exc).__name__)
         else:
             sh.note('outside_domain:' + str(info.get('why')))
+    if api == 'obj' and df is not None and prop == 'C01' and monitors.centre_of(df) is not None:
+        # the object interface must honour the options the USER gave (not whatever it forwarded to compute_features)
+        fek_user = case.get('find_extrema_kwargs')
+        with quiet():
+            monitors.check_structure(df, len(case['sig']), (fek_user or {}).get('boundary', 0), 'Bycycle.fit')
+            monitors.check_rows_against_reference(df, np.asarray(case['sig']), case['fs'], tuple(case['f_range']),
+                                                  case.get('center_extrema', 'peak'),
+                                                  fek_user if fek_user is not None else {'filter_kwargs': {'n_cycles': 3}}, 'Bycycle.fit')
     got = attach.take_violations()
     vs += [v for v in got if v['property'] in (prop, '_monitor')]
     for v in got:
